@@ -261,22 +261,23 @@ func finish(spec *propSpec, tier string, seed int, rr *runResult, ff *FindingsFi
 var laterRules = map[string]string{
 	"C01": " ALSO DECIDED: tolerance-two-sided (a float difference compared with a small positive tolerance goes through math.Abs or is bounded on both sides — the sine pacer's convergence test); float-precision (no run-time integer quotient feeds a float64 schedule formula); mul-wrap and overflow-guard follow single-site helpers of Pace; divisor facts established by the caller hold inside such helpers.",
 	"C02": " ALSO DECIDED: the sequence counter is identified structurally (the field loaded into Result.Seq) and must belong to the per-attack object; function-literal workers and deferred named shutdown helpers are recognised.",
-	"C03": " ALSO DECIDED: ticks-unbuffered (the tick channel is a rendezvous); growth-condition (before the non-blocking offer the only extra branch condition is the spare-capacity test).",
+	"C03": " ALSO DECIDED: ticks-unbuffered (the tick channel is a rendezvous); growth-condition (before the non-blocking offer the only extra branch condition is the spare-capacity test). refused-offer-must-spawn (after a refused non-blocking offer the blocking offer is reached only past a worker spawn, except on the pool-is-full edge of a counter-against-maximum test: a spawn inside a loop that may run zero times starts nobody).",
 	"C04": " ALSO DECIDED: ticks-unbuffered; the start instant is written once in Attack from time.Now(); duration test in either polarity; three-clause for loops.",
 	"C06": " ALSO DECIDED: request-untouched (hit assigns no field of the *http.Request except TransferEncoding; ContentLength is what bytes-out is read from).",
 	"C07": " ALSO DECIDED: complete-lines (shared with C09: the JSON decoder parses copied, newline-terminated lines of any length; bufio.Scanner framing is rejected); the header wire-format helper is recognised by effect, also when written in place.",
-	"C08": " ALSO DECIDED: output-truncated (os.Create or O_TRUNC); codec-table agreement of C07 and the complete-line rule of C09 (transcoding chains); table form of the -to selection.",
+	"C08": " ALSO DECIDED: output-truncated (os.Create or O_TRUNC); codec-table agreement of C07 and the complete-line rule of C09 (transcoding chains); table form of the -to selection. lexer-options (only the input of the jlexer.Lexer is set: UseMultipleErrors would turn type errors into non-fatal ones that Error() does not report).",
 	"C09": " ALSO DECIDED: sniff-replay of DecoderFor (shared with C08): the commands reach every decoder through it.",
 	"C10": " ALSO DECIDED: first-sample-marker (the field whose nil-ness Add uses as 'first sample' is written on the shared value only from Add); builtin min/max accumulator form; single-site helpers of Add are analysed as inlined.",
 	"C11": " ALSO DECIDED: the t-digest adapter itself (not a wrapper around it) is what init installs.",
 	"C12": " ALSO DECIDED: bucket fields are trimmed of all white space before time.ParseDuration; bounds come from ParseDuration unchanged (wrapper recognised); comparison polarity is tracked, the scan may live in a single-site helper.",
 	"C13": " ALSO DECIDED: the round-robin decoder decodes straight into the caller's Result; complete-lines and sniff-replay (records of any length, no fixed detection window).",
 	"C14": " ALSO DECIDED: header-case scope includes the JSON target codec and Target.Equal; clone helpers must clip the capacity of values carved from one array; variadic merge helpers are followed.",
-	"C15": " ALSO DECIDED: source-stays-open (no Close in the targeters: every caller after exhaustion gets ErrNoTargets); inner targeter literal under a thin locked wrapper; self-locking helper types.",
+	"C15": " ALSO DECIDED: source-stays-open (no Close in the targeters: every caller after exhaustion gets ErrNoTargets); inner targeter literal under a thin locked wrapper; self-locking helper types. one-critical-section (the lock is taken once per call: no second acquisition reachable from the first, none in a loop, counting the local function literals the targeter calls that lock by themselves).",
 	"C16": " ALSO DECIDED: scanner-split (a custom bufio.SplitFunc advances with every token); search-result, copy() and tested i+k bounds.",
-	"C17": " ALSO DECIDED: the reorder buffer is never reassigned after construction; release loop and row construction may live in single-site helpers.",
+	"C17": " ALSO DECIDED: the reorder buffer is never reassigned after construction; release loop and row construction may live in single-site helpers. row-blank (every block of float64 cells a row is taken from is filled with NaN over its whole length before a row from it is appended; rows built by helpers or carved from a backing array are followed).",
+	"C18": " ALSO DECIDED: dns-refresh (the refresh goroutine calls Resolver.Refresh(true) inside its ticker loop: no cache entry outlives a refresh interval unresolved); the connect-to mapping is consulted once per dial, not in a loop (a replacement that is itself a source address is not translated again); bound-method dial closures and value-form previous dialers are followed.",
 	"C19": " ALSO DECIDED: special values store the parser's result through conversions only; validation in predicate or single-site helpers is followed by path exploration.",
-	"C20": " ALSO DECIDED: metric-opts (vectors are created with name, help and buckets only).",
+	"C20": " ALSO DECIDED: metric-opts (vectors are created with name, help and buckets only). register-error (no failure of Registerer.Register is dropped: on every path from the error edge the error value is wrapped, joined, stored or returned before the loop goes on or Register returns).",
 }
 
 const engineNote = " ENGINE: values are described by canonical, rename-proof paths; unexported helpers with a single call site are analysed as if inlined (parameters bound to arguments, caller facts, context-sensitive continuation at their returns); method-value closures, literal tables and typed atomics are normalised. Verdicts therefore do not depend on identifier names or on whether a step lives in a helper."
